@@ -53,7 +53,11 @@ def sync_findings(meta, blocks):
     return fs
 
 def compare_with_reference(meta, ref_blocks, blocks):
-    """clause (b): the first op whose result differs from the failure-free run must report a failure"""
+    """clause (b): every op whose result differs from the failure-free run must report a failure —
+    the call during which the fault fired, and every later call as well (a later call that "succeeds"
+    with different output is the silent corruption the property forbids).  Once an open/search
+    has come out differently the handle numbers of the case no longer mean the same objects, so
+    the comparison stops there."""
     ref = op_results(ref_blocks); got = op_results(blocks)
     for (rw, rd, rl), (gw, gd, gl) in zip(ref, got):
         if rl == gl: continue
@@ -62,7 +66,8 @@ def compare_with_reference(meta, ref_blocks, blocks):
             failed = gd.get("err") not in (None, "0")
         if not failed:
             return [Finding("violation", f"{meta['family']} {meta['fault']}: {gw} reports success but its result differs from the failure-free run: got '{gl[0][:150]}' ({len(gl)} lines) vs '{rl[0][:150]}' ({len(rl)} lines)")]
-        break
+        if gw in ("open", "fastopen", "search", "new", "append", "prepend"):
+            break
     return []
 
 def run_given(ctx, res, cw, viol, mism):
